@@ -284,7 +284,15 @@ def handle_violations(prop, seed, opts, agg, max_groups=8, budget_s=60):
     kf = known.load()
     seen_known = set()
     n_groups = 0
+    t_start = time.monotonic()
     for sigs, lst in sorted(by_sig.items(), key=lambda kv: -len(kv[1])):
+        confirmed = sum(1 for v in vio_lines if v[0] == "VIOLATION")
+        if confirmed >= 3 or (confirmed >= 1 and time.monotonic() - t_start > 240):
+            # one confirmed, minimised, replayable violation already fails the check; do not spend the budget on
+            # minimising every other symptom of (most likely) the same defect
+            vio_lines.append(("NOTE", f"{len(by_sig) - n_groups} further violation signature(s) not triaged "
+                                      f"(see violating_runs_by_signature in the evidence file)"))
+            break
         sig = json.loads(sigs)
         n_groups += 1
         lst.sort(key=lambda r: len(r["record"].get("ops", ())))
